@@ -92,11 +92,15 @@ Definition qzero (q : Q) : bool := Qeq_bool q 0.
 (* the value a following shortcut starts from; [chain] = how many shortcuts are chained at the end *)
 Inductive lastinfo := LNone | LVal (q : Q) | LSc (chain : nat) (last : option val).
 
+(* a shortcut chained onto others starts from the last value of the whole chain in front: list(p[0])[-1] *)
+Definition pnode_vals (n : pnode) : list val := match n with PVal q => [VQ q] | PSc _ vs _ => vs end.
+Definition chain_vals (ns : list pnode) (chain : nat) : list val :=
+  flat_map pnode_vals (rev (firstn chain (rev ns))).
 Definition last_of (ns : list pnode) (chain : nat) : lastinfo :=
   match rev ns with
   | [] => LNone
   | PVal q :: _ => LVal q
-  | PSc _ vs _ :: _ => LSc chain (match rev vs with [] => None | v :: _ => Some v end)
+  | PSc _ _ _ :: _ => LSc chain (match rev (chain_vals ns chain) with [] => None | v :: _ => Some v end)
   end.
 
 Definition drop_last {A} (l : list A) : list A := removelast l.
@@ -113,17 +117,17 @@ Definition attach (ns : list pnode) (chain : nat) (k : kind) (mk : Q -> option (
       | None => (PErr PValue, 0%nat)
       end
   | LSc c last =>
-      if Nat.leb 2 c then (PErr PCrash, 0%nat)          (* p[0] is a plain ListNode: AttributeError *)
-      else match last with
-           | None => (PErr PCrash, 0%nat)               (* 0J followed by a shortcut: IndexError *)
-           | Some VJ => (PErr PValue, 0%nat)            (* "... cannot follow a jump" *)
-           | Some (VLog _ _ _ _) => (PErr PCrash, 0%nat)  (* unreachable: a shortcut never ends in an interpolate *)
-           | Some (VQ q) =>
-               match mk q with
-               | Some vs => (POk (ns +++ [PSc k vs true]), S c)
-               | None => (PErr PValue, 0%nat)
-               end
-           end
+      (* any number of shortcuts can be chained: the start value is the last value in front *)
+      match last with
+      | None => (PErr PCrash, 0%nat)               (* 0J followed by a shortcut: IndexError *)
+      | Some VJ => (PErr PValue, 0%nat)            (* "... cannot follow a jump" *)
+      | Some (VLog _ _ _ _) => (PErr PCrash, 0%nat)  (* unreachable: a shortcut never ends in an interpolate *)
+      | Some (VQ q) =>
+          match mk q with
+          | Some vs => (POk (ns +++ [PSc k vs true]), S c)
+          | None => (PErr PValue, 0%nat)
+          end
+      end
   end.
 
 Fixpoint parse_aux (ts : list tok) (ns : list pnode) (chain : nat) : pres :=
@@ -141,15 +145,13 @@ Fixpoint parse_aux (ts : list tok) (ns : list pnode) (chain : nat) : pres :=
       | (POk ns', c) => parse_aux r ns' c
       | (PErr e, _) => PErr e
       end
-  | TInt n :: TNum e :: r =>
-      if qzero e then PErr PReject                      (* the end must be a NUMBER token, not NULL *)
-      else
+  | TInt n :: TNum e :: r =>                            (* the end may be zero (a null_phrase) *)
       match attach ns chain KI (fun q => Some (expand_interpolate q e (cnt n) +++ [VQ e])) with
       | (POk ns', c) => parse_aux r ns' c
       | (PErr e, _) => PErr e
       end
   | TLog n :: TNum e :: r =>
-      if qzero e then PErr PReject
+      if qzero e then PErr PReject                      (* the end must be a NUMBER token, not NULL *)
       else
       match attach ns chain KL (fun q => if qpos q && qpos e
                                          then Some (expand_log q e (cnt n) +++ [VQ e])
